@@ -344,6 +344,12 @@ func main() {
 		if j.Class == "bondgo-mpm" {
 			n *= 3 // short runs; a two-element map order showed up in only one run out of seven here
 		}
+		if j.Class == "create-verilog" && strings.Contains(j.Name, "directed") {
+			// Go starts the iteration of a small map at a random one of its 8 slots: a k-element map is
+			// walked in its default order in (9-k)/8 of the runs. 24 runs leave a two-element order
+			// dependence unseen with probability (7/8)^23 = 4.6%, 6 runs with 51%.
+			n *= 4
+		}
 		run.Eval(int64(n))
 		outs := make([]outcome, n)
 		hx.Par(n, func(r int) {
@@ -409,8 +415,12 @@ func main() {
 		case strings.HasPrefix(k, "bmqsim-"):
 			stage2 = append(stage2, job{Name: "basm-on-" + k, Tool: "basm", Class: "bmqsim-output", Files: map[string]string{"in.basm": f["q.basm"]},
 				Args: []string{"-disable-dynamical-matching", "-o", "out.json", "in.basm"}, Outputs: []string{"out.json"}})
-		case strings.HasPrefix(k, "basm-") && nv < 6:
-			nv++
+		case strings.HasPrefix(k, "basm-") && (nv < 6 || strings.HasPrefix(k, "basm-directed")):
+			// (the directed machines always: the one with five shared objects of two kinds is the only
+			// one whose top level instantiates several kinds of shared-object modules)
+			if !strings.HasPrefix(k, "basm-directed") {
+				nv++
+			}
 			stage2 = append(stage2, job{Name: "verilog-of-" + k, Tool: "bondmachine", Class: "create-verilog", Files: map[string]string{"bm.json": f["out.json"], "sb.json": `{"Rules":[]}`},
 				Args: []string{"-bondmachine-file", "bm.json", "-create-verilog", "-verilog-flavor", "iverilog", "-verilog-simulation", "-simbox-file", "sb.json"}, Outputs: []string{"DIR"}})
 		}
